@@ -120,7 +120,7 @@ def ref_parse_timezone(s):
     """Independent reading of the documented format: 'UTC' or 'UTC±hh:mm'."""
     if not isinstance(s, str):
         raise TypeError("expected string")
-    t = s[:-1] if s.endswith("\n") else s
+    t = s   # (the documented format has no trailing newline; `re.match` with `$` used to let one through: F47)
     if t == "UTC":
         return TZ.utc
     if len(t) == 9 and t[:3] == "UTC" and t[3] in "+-" and t[4] in "012" and t[5].isascii() and t[5].isdigit() and t[6] == ":" and t[7] in "012345" and t[8].isascii() and t[8].isdigit():
@@ -613,7 +613,10 @@ def _norm_tz(v):
                 return ["leaf", "timezone", repr(datetime.timezone(tz.utcoffset(None)))]
             except Exception:  # noqa
                 return v
-        return [_norm_tz(x) for x in v]
+        out = [_norm_tz(x) for x in v]
+        if len(out) == 3 and out[0] == "coll" and out[1] in ("set", "frozenset") and isinstance(out[2], list):
+            out[2] = sorted(out[2], key=lambda j: json.dumps(j, sort_keys=True))   # canonical order again after normalisation
+        return out
     if isinstance(v, dict):
         return {k: _norm_tz(x) for k, x in v.items()}
     return v
